@@ -491,8 +491,8 @@ pub fn run(args: &Args) -> Value {
         r.inconclusive(&format!("sync monitor: {e}"));
         return r.to_json(&known);
     }
-    let runs = args.get_u64("sync_runs", args.tier.pick(2, 16));
-    let rounds = args.get_u64("sync_rounds", args.tier.pick(2, 6));
+    let runs = args.get_u64("sync_runs", args.tier.pick(4, 16));
+    let rounds = args.get_u64("sync_rounds", args.tier.pick(3, 6));
     let scratch = Scratch::new("vfreezer-sync");
     let exe = std::env::current_exe().expect("current_exe");
     for run in 0..runs {
